@@ -365,7 +365,17 @@ def r12_4(ctx):
             else:
                 # with completed and total unknown the percentage cannot be one fixed number: a path that returns a constant
                 # answers from something else than completed / total (a sticky `finished` flag, a cached value)
-                if iv is not None and iv[0] == iv[1] and not any("total" in c_ for c_ in o.path.conds[-1:]):
+                def _foreign(cond):
+                    # a condition that looks at neither completed nor total nor a local computed from them
+                    try:
+                        ce = ast.parse(cond, mode="eval").body
+                    except SyntaxError:
+                        return False
+                    if any(isinstance(y, ast.Name) and y.id != "self" for y in ast.walk(ce)):
+                        return False  # a local (e.g. the computed ratio): a clamp written as a chain of ifs
+                    attrs = {y.attr for y in ast.walk(ce) if isinstance(y, ast.Attribute)}
+                    return bool(attrs) and not (attrs & {"completed", "total", "remaining", "percentage"})
+                if iv is not None and iv[0] == iv[1] and o.path.conds and _foreign(o.path.conds[-1]):
                     ctx.violation(p.fq, f"{label}: {short(o.node)} [{' & '.join(o.path.conds)}]", where,
                                   f"Task.percentage returns the constant {iv[0]} on the path [{' & '.join(o.path.conds)}] although the total is non-zero and completed is arbitrary there: the percentage is no longer completed / total (a task that finished and was then set back with update(completed=3) would still report this value)")
                     continue
